@@ -235,3 +235,7 @@ func (s *Snap) shape() string {
 	}
 	return fmt.Sprintf("L%d.S%d.T%d.D%d.P%d.F%d", len(s.Live), len(s.Stored), len(s.Leaves), depth, len(s.Parked), len(s.Funds))
 }
+
+func sortHashes(hs []Hash) {
+	sort.Slice(hs, func(i, j int) bool { return bytes.Compare(hs[i][:], hs[j][:]) < 0 })
+}
